@@ -1,4 +1,5 @@
 """C11 — a collection is accepted exactly when it describes one running order."""
+import os
 import itertools
 import gens
 import impl
@@ -61,8 +62,8 @@ def collections(tier):
                 renum = [re.sub(r'<messageID>\d+</messageID>', '<messageID>%d</messageID>' % (k + 1), t, count=1) for k, t in enumerate(order)]
                 shapes.append(('interleaved-%d' % start, renum))
         for shape, dl in shapes:
-            for inc in (False, True):
-                accept = (len(dl) > 0 and not mixed and n_rc == 1 and n_rd <= 1 and (inc or n_rd == 1))
+            for inc in (False, True) + ((None,) if shape == 'std' else ()):         # None: the argument is left out
+                accept = (len(dl) > 0 and not mixed and n_rc == 1 and n_rd <= 1 and (bool(inc) or n_rd == 1))
                 yield dl, inc, accept, {'rc': n_rc, 'rd': n_rd, 'other': n_other, 'mixed': mixed, 'shape': shape}
         if n_rc == 1 and not two_ids:
             # acceptance is a matter of counts and IDs only: whatever the roCreate looks like inside (no roSlug, nothing
@@ -122,7 +123,7 @@ class Check:
                 raise SystemExit(3)
         cols = list(collections(tier))
         items = [{'docs': d, 'inc': inc} for d, inc, _, _ in cols]
-        model = engine.readers_cases(items)
+        model = engine.readers_cases([dict(i, inc=bool(i['inc'])) for i in items])
         res = {'default': run_sub([], 'collection', items), '-O': run_sub(['-O'], 'collection', items)}
         vio, dis, sigs, samples = [], [], set(), []
         n = 0
@@ -153,6 +154,44 @@ class Check:
                     dis.append({'case': {'kind': 'collection', 'docs': docs, 'inc': inc, 'flag': flag}, 'impl': str(i), 'model': str(m), 'explained': bool(what)})
             if len(samples) < 3 and meta['rc'] == 1 and meta['rd'] == 2:
                 samples.append({'counts': meta, 'allow_incomplete': inc, 'default': a[:2], '-O': b[:2]})
+        # the default of every construction route (the keyword left out) is "incompleteness is not allowed"
+        import tempfile
+        import shutil
+        import fakes3
+        from mosromgr.moscollection import MosCollection, MosReader
+        from mosromgr.utils import s3 as s3mod
+        ro_t = to_text(gens.make_ro(['A'], message_id=1))
+        ap_t = to_text(story_append(2, [gens.new_story('N')]))
+        rd_t = to_text(ro_delete(3))
+        tmp = tempfile.mkdtemp(prefix='mosverif-c11-')
+        saved = (s3mod.s3._client, s3mod.s3._resource)
+        try:
+            for complete in (True, False):
+                docs_ = [ro_t, ap_t] + ([rd_t] if complete else [])
+                paths = []
+                for k, t in enumerate(docs_):
+                    paths.append(os.path.join(tmp, 'c%d-%d.mos.xml' % (complete, k)))
+                    open(paths[-1], 'w', encoding='utf-8').write(t)
+                fakes3.install(s3mod, objects={'p/%d.mos.xml' % k: t.encode('utf-8') for k, t in enumerate(docs_)})
+                routes = {'MosCollection(readers)': lambda: MosCollection(sorted(MosReader.from_string(t) for t in docs_)),
+                          'from_strings': lambda: MosCollection.from_strings(docs_),
+                          'from_files': lambda: MosCollection.from_files(paths),
+                          'from_s3': lambda: MosCollection.from_s3(bucket_name='b', prefix='p/')}
+                for name, fn in routes.items():
+                    try:
+                        fn()
+                        got = 'accepted'
+                    except Exception as e:
+                        got = type(e).__name__
+                    n += 1
+                    sigs.add(('default', name, complete, got))
+                    want = 'accepted' if complete else 'InvalidMosCollection'
+                    if got != want:
+                        vio.append({'what': '%s without allow_incomplete: a collection %s roDelete is %s, expected %s' % (name, 'with its' if complete else 'without a', got, want),
+                                    'case': {'kind': 'default-route', 'route': name, 'docs': docs_}, 'impl': got, 'expected': want})
+        finally:
+            s3mod.s3._client, s3mod.s3._resource = saved
+            shutil.rmtree(tmp, ignore_errors=True)
         import static
         asserts = static.validate_asserts(impl.REPO)
         if asserts and not vio:
@@ -167,8 +206,11 @@ class Check:
         if 'docs' not in case:
             return {'violation': False, 'note': str(rep.get('detail'))}
         flags = ['-O'] if case.get('flag') == '-O' else []
+        if case.get('kind') == 'default-route':
+            # replayed through from_strings without the keyword (the route itself is named in the report)
+            case = dict(case, inc=None)
         r = run_sub(flags, 'collection', [{'docs': case['docs'], 'inc': case['inc']}])[0]
-        mo = engine.readers_cases([{'docs': case['docs'], 'inc': case['inc']}])[0]
+        mo = engine.readers_cases([{'docs': case['docs'], 'inc': bool(case['inc'])}])[0]
         return {'violation': (r[0] == 'ok') != (mo[0] == 'ok') or (r[0] == 'err' and r[1] != 'InvalidMosCollection'), 'impl': r[:2], 'model': str(mo)}
 
     def shrink(self, v):
